@@ -1057,6 +1057,190 @@ def run_ap3(ctx, nfiles):
 
 
 # --------------------------------------------------------------------------
+# histories inside one process: what is read is a function of the file as it is
+# now, whatever was read before from the same path or from other files
+
+def ap3_compare(ctx, path, tree, case, where):
+    '''new Reader and new Picker on path, every stored result against the tree
+    that was written there last'''
+    from valjean.eponine.apollo3.hdf5_reader import Reader
+    from valjean.eponine.apollo3.hdf5_picker import Picker
+    sub = dict(case, file=where)
+    try:
+        browser = Reader(path).to_browser()
+    except Exception as exc:  # noqa
+        ctx.oracle_failure(f'Reader raises {type(exc).__name__} :: {where}', case, key='ap3-reader-raises')
+        return None
+    reader_obs = {(r.get('output'), r.get('zone'), r.get('isotope'), r.get('result_name')): ds_obs(r['results'])
+                  for r in browser.content}
+    pick = Picker(path)
+    for item in truth_items(tree):
+        oname, zname, iso, nam = item[:4]
+        check_against_truth(ctx, reader_obs.get((oname, zname, iso, nam.lower()), 'missing'), item, 'reader', sub)
+        try:
+            pobs = ds_obs(pick.pick_standard_value(output=oname, zone=zname, result_name=nam, isotope=iso))
+        except Exception as exc:  # noqa
+            pobs = type(exc).__name__
+        check_against_truth(ctx, pobs, item, 'picker', sub)
+    pick.close()
+    return pick            # kept alive by the caller (closed): caches may be keyed on it
+
+
+def permuted_isotopes(rng, tree):
+    '''the same tree with the isotopes of every zone stored in another order
+    and other concentrations (a file of the same size)'''
+    new = json.loads(json.dumps(tree))
+    changed = False
+    for out in new.values():
+        for zname, zone in out['zones'].items():
+            if zname != 'totaloutput' and len(zone['isotopes']) > 1:
+                order = list(range(len(zone['isotopes'])))
+                while order == sorted(order):
+                    rng.shuffle(order)
+                zone['isotopes'] = [zone['isotopes'][i] for i in order]
+                zone['concen'] = [rng.uniform(1e-6, 1e-1) for _ in order]
+                changed = True
+    return new if changed else None
+
+
+def draw_user(rng):
+    names = rng.sample(['KEFF_CORE', 'Power_peak', 'rho', 'Mino_RHO', 'Pow_T0.1', 'beta_eff', 'Lambda'],
+                       rng.randint(2, 5))
+    return {'layout': rng.choice(['flat', 'group']), 'names': names,
+            'values': [rng.uniform(-3, 3) for _ in names]}
+
+
+def write_user_hdf(user, path):
+    import h5py
+    with h5py.File(path, 'w') as hfile:
+        hfile.create_group('info')['COMMENT'] = np.array([b'user values'], dtype='S16')
+        out = hfile.create_group('output')
+        names = np.array([(n + '  ').encode() for n in user['names']], dtype='S16')
+        if user['layout'] == 'flat':
+            out['LOCALNAME'] = names
+            out['LOCALVALUE'] = np.array(user['values'], dtype=np.float32)
+        else:
+            grp = out.create_group('localvalue')
+            grp['LOCALNAME'] = names
+            for nam, val in zip(user['names'], user['values']):
+                grp[nam] = np.array([val, val + 1.0], dtype=np.float32)
+
+
+def user_compare(ctx, path, user, case, where):
+    from valjean.eponine.apollo3.hdf5_reader import Reader
+    from valjean.eponine.apollo3.hdf5_picker import Picker
+    try:
+        content = Reader(path).to_browser().content
+    except Exception as exc:  # noqa
+        ctx.oracle_failure(f'Reader raises {type(exc).__name__} on a user-value file :: {where}', case,
+                           key='ap3-reader-raises')
+        return None
+    robs = {r.get('result_name'): [float(x) for x in np.asarray(r['results'].value).reshape(-1)]
+            for r in content}
+    pick = Picker(path)
+    for nam, val in zip(user['names'], user['values']):
+        want = f32([val]) if user['layout'] == 'flat' else f32([val, val + 1.0])
+        if not same(robs.get(nam, []), want):
+            ctx.oracle_failure(f'reader: local value {nam} is not the stored one :: {where}', case,
+                               key='ap3-reader-values')
+        try:
+            pds = pick.pick_user_value(output='output', result_name=nam,
+                                       zone=None if user['layout'] == 'flat' else 'localvalue')
+            got = [float(x) for x in np.asarray(pds.value).reshape(-1)]
+        except Exception as exc:  # noqa
+            got = type(exc).__name__
+        if isinstance(got, str) or not same(got, want):
+            ctx.oracle_failure(f'picker: local value {nam} = {got}, stored {want} :: {where}', case,
+                               key='ap3-picker-values')
+    pick.close()
+    return pick
+
+
+def t4_compare(ctx, path, doc, case, where, rng):
+    from valjean.eponine.tripoli4.parse import Parser
+    try:
+        par = Parser(path)
+        for edi in doc['editions']:
+            if rng.random() < 0.5:
+                browser = par.parse_from_number(edi['batch']).to_browser()
+            else:
+                idx = doc['editions'].index(edi)
+                browser = par.parse_from_index(idx).to_browser()
+            t4_oracle(ctx, edi, browser, dict(case, listing=where), edi['batch'])
+    except Exception as exc:  # noqa
+        ctx.oracle_failure(f'parsing raises {type(exc).__name__} :: {where}', case, key='t4-parser-raises')
+        return None
+    return par
+
+
+def play_history(ctx, case, rng):
+    '''steps = [(path index, content index)]: write the content at the path (when
+    it is not what the path holds) and read it back with new objects'''
+    wdir = ctx.wd()
+    kind = case['kind']
+    ext = '.res' if kind == 't4hist' else '.hdf'
+    paths = [os.path.join(wdir, f'hist_{kind}_{case.get("id", 0)}_{k}{ext}') for k in range(2)]   # own paths: self-contained replay
+    holds = {}
+    alive = []
+    head = header(common.REPO) if kind == 't4hist' else None
+    for num, (ipath, icont) in enumerate(case['steps']):
+        content = case['contents'][icont]
+        if holds.get(ipath) != icont:
+            if kind == 't4hist':
+                with open(paths[ipath], 'w', encoding='utf-8') as fil:
+                    fil.write(listing_text(content, head))
+            elif kind == 'userhist':
+                write_user_hdf(content, paths[ipath])
+            else:
+                write_hdf(content, paths[ipath])
+            holds[ipath] = icont
+        where = (f'step {num} of the history ' + ' ; '.join(f'path{p}<-content{c}' for p, c in case['steps'][:num + 1])
+                 + f' ({kind})')
+        if kind == 't4hist':
+            alive.append(t4_compare(ctx, paths[ipath], content, case, where, rng))
+        elif kind == 'userhist':
+            alive.append(user_compare(ctx, paths[ipath], content, case, where))
+        else:
+            alive.append(ap3_compare(ctx, paths[ipath], content, case, where))
+    for path in paths:
+        if os.path.exists(path):
+            os.unlink(path)
+    return alive
+
+
+def run_histories(ctx, nhist):
+    rng = ctx.rng
+    shapes = [[(0, 0), (0, 1)], [(0, 0), (0, 1), (0, 0)], [(0, 0), (1, 1), (0, 0), (1, 1)],
+              [(0, 0), (1, 1), (0, 1), (1, 0)]]
+    for num in range(nhist):
+        kind = ('ap3hist', 'ap3hist', 'userhist', 't4hist')[num % 4]
+        if kind == 'ap3hist':
+            first, second = None, None
+            for _ in range(40):
+                first = draw_tree(rng)
+                second = permuted_isotopes(rng, first)
+                if second is not None:
+                    break
+            if second is None or num % 8 == 1:
+                second = draw_tree(rng)            # an unrelated tree at the same path
+            contents = [first, second]
+        elif kind == 'userhist':
+            first = draw_user(rng)
+            order = list(range(len(first['names'])))
+            while order == sorted(order):
+                rng.shuffle(order)
+            second = {'layout': first['layout'], 'names': [first['names'][i] for i in order],
+                      'values': [rng.uniform(-3, 3) for _ in order]}
+            contents = [first, second if rng.random() < 0.8 else draw_user(rng)]
+        else:
+            contents = [draw_doc(rng), draw_doc(rng)]
+        case = {'kind': kind, 'id': num, 'contents': contents, 'steps': rng.choice(shapes)}
+        before = len(ctx.violations)
+        play_history(ctx, case, rng)
+        ctx.count('histories_' + kind)
+        ctx.case_seen({'kind': kind, 'history': num, 'steps': case['steps']}, True, sample_every=7)
+        del before
+
 
 TEXT_CODES = {1: 'the model printer (C10/Text.v print_block) and the generator print different texts',
               2: 'the generated document is not well-formed (wf_doc): the round-trip theorem does not apply',
@@ -1095,13 +1279,16 @@ def run(ctx):
                 'number or index; text of a third (quick) / all of the generated editions and of the last '
                 'edition(s) of the shipped example listings against the model printer/parser; Apollo3: files written from drawn standard-layout trees (1-2 outputs, '
                 '1-3 zones, 0-3 isotopes, macro group, anisotropy given globally or per result, multigroup '
-                'spectrum); non-trivial = an edition / a file with at least one result; distinct by content')
+                'spectrum); histories in one process: a path rewritten with the isotopes / local names in another order '
+                'or with another tree / listing, two paths read alternately, new Reader / Picker / Parser objects '
+                'each time (old ones kept alive); non-trivial = an edition / a file with at least one result; distinct by content')
     tap = install_tap()
     if tap is None:
         ctx.count('t4_grammar_elements_not_found')
     t4cases, t4index, txcases, txindex = run_t4(ctx, 60 if quick else 1500, tap)
     shcases, shindex = run_shipped(ctx, tap) if tap is not None else ([], [])
     apcases, apindex = run_ap3(ctx, 40 if quick else 500)
+    run_histories(ctx, 16 if quick else 200)
     shards, indexes = [], []
     per = 8
     for k in range(0, len(txcases), per):
@@ -1186,7 +1373,11 @@ def replay(ctx, path):
     data = json.load(open(path))
     case = data['case']
     wdir = ctx.wd()
-    if case.get('kind') == 't4':
+    if case.get('kind') in ('ap3hist', 'userhist', 't4hist'):
+        import random
+        print('history: (path, content) steps', case['steps'], 'over', len(case['contents']), 'contents')
+        play_history(ctx, case, random.Random(0))
+    elif case.get('kind') == 't4':
         from valjean.eponine.tripoli4.parse import Parser
         text = listing_text(case['doc'], header(common.REPO))
         fpath = os.path.join(wdir, 'replay.res')
